@@ -346,8 +346,8 @@ def downloadCert : M CertBody := do
   | .ok body => pure body.certClass
   | _ => failAt .certDownload
 
-/-- `acme_proto.rs:288-293` (since 13f7261): the body must parse and its leaf key must be the CSR
-key.  Before: stored as it is. -/
+/-- `acme_proto.rs:288-293` (since 13f7261; `chain_from_pem` since c2b9c05): every block of the
+body must parse as a certificate and the leaf key must be the CSR key.  Before: stored as it is. -/
 def checkBody (v : Variant) (k : KeyId) (cb : CertBody) : M CertContent :=
   if v.parseBody then
     match cb with
